@@ -1106,7 +1106,41 @@ def delete_pointless_statements(source: str) -> str:
             # "_" is only a throwaway name as long as nothing reads it (_ = gettext.gettext)
             if underscore_is_used and _mentions_underscore(child):
                 continue
+            # Iterating advances a generator / an iterator: for _ in it: pass, [x for x in it], [*it]
+            if _iterates_unknown_object(child):
+                continue
             yield child, None
+
+
+_REITERABLE_BUILTINS = frozenset({"range", "enumerate", "zip", "reversed", "sorted", "list", "tuple", "set", "frozenset"})
+
+
+def _is_static_iterable(node: ast.AST) -> bool:
+    """Whether iterating the value of node cannot do more than evaluating node does."""
+    if isinstance(node, (ast.Constant, ast.List, ast.Tuple, ast.Set, ast.Dict, ast.JoinedStr)):
+        return True
+    if isinstance(node, (ast.ListComp, ast.SetComp, ast.DictComp, ast.GeneratorExp)):
+        return True  # its own generators are looked at separately
+    if isinstance(node, ast.Call) and isinstance(node.func, ast.Name) and not node.keywords:
+        if node.func.id == "range":
+            return True
+        if node.func.id in _REITERABLE_BUILTINS:
+            return all(_is_static_iterable(arg) for arg in node.args)
+
+    return False
+
+
+def _iterates_unknown_object(node: ast.AST) -> bool:
+    """Whether executing node iterates over an object that is not built on the spot."""
+    for child in ast.walk(node):
+        if isinstance(child, (ast.For, ast.AsyncFor, ast.comprehension)):
+            if not _is_static_iterable(child.iter):
+                return True
+        elif isinstance(child, ast.Starred) and isinstance(child.ctx, ast.Load):
+            if not _is_static_iterable(child.value):
+                return True
+
+    return False
 
 
 def _mentions_underscore(node: ast.AST) -> bool:
